@@ -54,12 +54,17 @@ def check(prog, run):
                 if top in BINDINGS:
                     home, flag, _, _ = BINDINGS[top]
                     tries = [x for x in chain if isinstance(x, ast.Try)]
+                    # `with contextlib.suppress(ImportError): import x` guards the import like try / except ImportError: pass
+                    suppressed = any(isinstance(x, ast.With) and any(
+                        isinstance(it.context_expr, ast.Call) and ast.unparse(it.context_expr.func).split(".")[-1] == "suppress"
+                        and any(ast.unparse(a_).split(".")[-1] in ("ImportError", "ModuleNotFoundError", "Exception", "BaseException") for a_ in it.context_expr.args)
+                        for it in x.items) for x in chain)
                     in_func = any(isinstance(x, (ast.FunctionDef, ast.ClassDef)) for x in chain)
                     good = False
                     why = ""
                     if name != home:
                         why = "only %s may import the %s binding" % (home, top)
-                    elif in_func or any(isinstance(x, ast.If) for x in chain):
+                    elif in_func or suppressed or any(isinstance(x, ast.If) for x in chain):
                         # imported on demand inside a function, or under a condition (a presence test such as
                         # importlib.util.find_spec): whether the module still imports without the binding is decided below (b)
                         good = True
